@@ -161,6 +161,20 @@ pub fn alphabet(sc: &Scope, asks: &[(String, AskOrderV1)], bids: &[(String, BidO
     if hasb(B1) && !has(B1) {
         v.push(ex(sc.seller, funds_for(sc, &info.base_denom, sizes[0]), ExecuteMsg::CreateAsk { id: s(B1), base: info.base_denom.clone(), quote: quote.clone(), price: s(sc.ask_prices[0]), size: Uint128::new(sizes[0]) }));
     }
+    // sizes off the increment grid, otherwise consistent (funds, totals, fee)
+    if inc >= 2 {
+        let off = inc + inc / 2;
+        if !has(A1) {
+            v.push(ex(sc.seller, funds_for(sc, &info.base_denom, off), ExecuteMsg::CreateAsk { id: s(A1), base: info.base_denom.clone(), quote: quote.clone(), price: s(sc.ask_prices[0]), size: Uint128::new(off) }));
+        }
+        if !hasb(B1) {
+            if let Some(total) = D::parse(sc.bid_prices[1]).and_then(|d| d.times(off)) {
+                let fee_amt = info.bid_fee_info.as_ref().and_then(|f| D::parse(&f.rate)).and_then(|r| r.fee_of(total)).unwrap_or(0);
+                let fee = if fee_amt > 0 { Some(coin(fee_amt, quote.clone())) } else { None };
+                v.push(ex(sc.buyer, funds_for(sc, &quote, total + fee_amt), ExecuteMsg::CreateBid { id: s(B1), base: info.base_denom.clone(), fee, price: s(sc.bid_prices[1]), quote: quote.clone(), quote_size: Uint128::new(total), size: Uint128::new(off) }));
+            }
+        }
+    }
     if !has(A2) {
         for sz in sizes {
             v.push(ex(sc.seller2, funds_for(sc, "conv1", sz), ExecuteMsg::CreateAsk { id: s(A2), base: s("conv1"), quote: quote.clone(), price: s(sc.ask_prices[1]), size: Uint128::new(sz) }));
